@@ -88,6 +88,7 @@ def replay_on_real_crate(cx):
     """Append a plain #[test] with the concrete inputs to a scratch copy of the real module and run it."""
     d = '/var/tmp/verif-kani-replay-%d' % os.getpid()
     shutil.rmtree(d, ignore_errors=True)
+    os.makedirs(d)
     try:
         subprocess.run('rsync -a --exclude target --exclude .git %s/ %s/repo/' % (REPO, d), shell=True, check=True)
         if os.path.isdir(os.path.join(REPO, 'target', 'debug')):
@@ -96,8 +97,8 @@ def replay_on_real_crate(cx):
         test = '''
 #[cfg(test)]
 mod vx_counterexample_replay {
-    use super::*;
-    #[test]
+    use super::MergeOnce;
+    #[::core::prelude::v1::test]
     fn vx_replay_merge_once() {
         let a: Vec<u8> = vec!%s;
         let b: Vec<u8> = vec!%s;
@@ -117,9 +118,15 @@ mod vx_counterexample_replay {
         for prof in ('', '--release'):
             cmd = 'cargo test --offline %s -p incremental-map --lib vx_replay_merge_once' % prof
             p = subprocess.run(cmd, shell=True, cwd=d + '/repo', capture_output=True, text=True, env=env)
-            tail = '\n'.join(l for l in (p.stdout + p.stderr).split('\n') if l.startswith('test ') or 'panicked' in l or 'left' in l or 'right' in l or 'test result' in l)
-            outs.append(dict(cmd=cmd, rc=p.returncode, summary=tail[-800:]))
-            failed_somewhere = failed_somewhere or p.returncode != 0
+            full = p.stdout + p.stderr
+            tail = '\n'.join(l for l in full.split('\n') if l.startswith('test ') or 'panicked' in l or 'left' in l or 'right' in l or 'test result' in l)
+            ran = re.search(r'test result: \w+\. (\d+) passed; (\d+) failed', full)
+            if not ran or int(ran.group(1)) + int(ran.group(2)) == 0:
+                # the replay did not build or did not run: that is a tool problem, not a failing input
+                outs.append(dict(cmd=cmd, rc=p.returncode, summary='replay did not run: ' + full[-600:], ran=False))
+                continue
+            outs.append(dict(cmd=cmd, rc=p.returncode, summary=tail[-800:], ran=True))
+            failed_somewhere = failed_somewhere or int(ran.group(2)) > 0
         return dict(inputs=dict(a=a, b=b), test=test, runs=outs, fails_on_real_code=failed_somewhere)
     finally:
         shutil.rmtree(d, ignore_errors=True)
